@@ -517,6 +517,40 @@ func (t *Txn) ReadTs() uint64 {
 	return t.readTs
 }
 
+// CommitWith commits asynchronously, as Badger does: the transaction's writes are ordered and visible
+// to later transactions at once, but they reach stable storage later, on another thread, which then
+// calls cb. In the in-memory engine "stable storage" is the persistent-mutation log from which crash
+// images are built: the log entry is appended by a separate managed thread.
+func (t *Txn) CommitWith(cb func(error)) {
+	if t.real != nil {
+		if t.update {
+			vrt.CountMutation()
+		}
+		t.real.CommitWith(cb)
+		return
+	}
+	if t.discarded {
+		vrt.Go(func() { cb(ErrDiscardedTxn) })
+		return
+	}
+	t.discarded = true
+	if len(t.writes) == 0 {
+		vrt.Go(func() { cb(nil) })
+		return
+	}
+	ts, err := t.apply()
+	if err != nil {
+		vrt.Go(func() { cb(err) })
+		return
+	}
+	vrt.GoNamed("badger-async-commit", func() {
+		vrt.Point(vrt.OpKV, nil)
+		vrt.CountMutation()
+		t.record(ts)
+		cb(nil)
+	})
+}
+
 func (t *Txn) Commit() error {
 	if t.real != nil {
 		if t.update {
@@ -533,16 +567,26 @@ func (t *Txn) Commit() error {
 	}
 	vrt.Point(vrt.OpKV, nil)
 	vrt.CountMutation()
+	ts, err := t.apply()
+	if err != nil {
+		return err
+	}
+	t.record(ts)
+	return nil
+}
+
+// apply makes the writes visible (conflict check, new version); record logs them as durable.
+func (t *Txn) apply() (uint64, error) {
 	v := t.db.vol
 	v.mu.Lock()
 	if t.db.closed {
 		v.mu.Unlock()
-		return ErrDBClosed
+		return 0, ErrDBClosed
 	}
 	for k := range t.reads {
 		if vs := v.data[k]; len(vs) > 0 && vs[len(vs)-1].ts > t.readTs {
 			v.mu.Unlock()
-			return ErrConflict
+			return 0, ErrConflict
 		}
 	}
 	v.ts++
@@ -551,22 +595,26 @@ func (t *Txn) Commit() error {
 	}
 	ts := v.ts
 	v.mu.Unlock()
-	if vrt.Rec != nil {
-		site := ""
-		for i, w := range t.writes {
-			if i > 0 {
-				site += ","
-			}
-			if w.del {
-				site += "del:"
-			} else {
-				site += "set:"
-			}
-			site += prefixOf(w.key)
-		}
-		vrt.Record(vrt.Mutation{Kind: vrt.MutKV, Path: v.path, Off: int64(ts), Site: site})
+	return ts, nil
+}
+
+func (t *Txn) record(ts uint64) {
+	if vrt.Rec == nil {
+		return
 	}
-	return nil
+	site := ""
+	for i, w := range t.writes {
+		if i > 0 {
+			site += ","
+		}
+		if w.del {
+			site += "del:"
+		} else {
+			site += "set:"
+		}
+		site += prefixOf(w.key)
+	}
+	vrt.Record(vrt.Mutation{Kind: vrt.MutKV, Path: t.db.vol.path, Off: int64(ts), Site: site})
 }
 
 func prefixOf(k string) string {
